@@ -57,7 +57,9 @@ PROFILES = {
         "swift": {"type_mappings": {"Mapped": "SwiftMapped", "Stamped": "SwiftStamp"}},
         "kotlin": {"type_mappings": {"Mapped": "KotlinMapped", "Stamped": "KotlinStamp"}},
         "scala": {"type_mappings": {"Mapped": "ScalaMapped", "Stamped": "ScalaStamp"}},
-        "typescript": {"type_mappings": {"Mapped": "TsMapped", "Stamped": "TsStamp"}},
+        # ("Vec<u8>" = "Uint8Array": a special type mapped onto a type with a custom JSON translation, used only as an alias target -
+        # applying the mapping includes the reviver / replacer helpers)
+        "typescript": {"type_mappings": {"Mapped": "TsMapped", "Stamped": "TsStamp", "Vec<u8>": "Uint8Array"}},
         "go": {"type_mappings": {"Mapped": "GoMapped", "Stamped": "GoStamp"}},
         "python": {"type_mappings": {"Mapped": "PyMapped"}},
     },
@@ -125,7 +127,13 @@ def observe(lang, text, profile="basic"):
         o.setdefault("helper_inherits", {}).update(o2.get("helper_inherits", {}))
     foo = [d for d in o["defs"] if d["name"].endswith("Foo")][0]
     fld = {"Mapped": "m", "Mapped2": "m2", "Stamped": "st"}
-    tobs["type_mappings"] = {k: [m["ty"].get("n") for m in foo["members"] if m["key"] == fld[k]][0] for k in t.get("type_mappings", {})}
+    tobs["type_mappings"] = {k: [m["ty"].get("n") for m in foo["members"] if m["key"] == fld[k]][0] for k in t.get("type_mappings", {}) if k in fld}
+    if "Vec<u8>" in t.get("type_mappings", {}):
+        # read from the alias Digest = Vec<u8>; a target with a custom JSON translation counts as applied when the helpers are there too
+        dg = [d for d in o["defs"] if d["name"] == "Digest"]
+        name = (dg[0].get("target") or {}).get("n") if dg else None
+        helpers = {"ReviverFunc", "ReplacerFunc"} <= set(o.get("helper_defs", [])) | {d["name"] for d in o["defs"]} and ("new " + str(name)) in texts[0]
+        tobs["type_mappings"]["Vec<u8>"] = name if helpers else f"{name} (without its reviver / replacer helpers)"
     if lang == "swift":
         obs["swift_prefix"] = foo["name"][:-3]
         gen = [d for d in o["defs"] if d["name"].endswith("Gen")][0]
@@ -178,7 +186,7 @@ def run_case(work, idx, c):
     root = os.path.join(work, f"c{idx}")
     src = os.path.join(root, "a", "b", "proj")
     # profile generic_mapped: Foo also has a member of the mapped generic type, applied to arguments no backend but Go / TypeScript / Python translates
-    cli.make_tree(src, {"src/lib.rs": SRC if c.get("tables", "basic") != "generic_mapped" else SRC.replace("pub unit: (),", "pub unit: (), pub st: Stamped<OffsetDateTime, Vec<OffsetDateTime>>,")})
+    cli.make_tree(src, {"src/lib.rs": SRC if c.get("tables", "basic") != "generic_mapped" else SRC.replace("pub unit: (),", "pub unit: (), pub st: Stamped<OffsetDateTime, Vec<OffsetDateTime>>,") + "#[typeshare]\npub type Digest = Vec<u8>;\n"})
     disc = c["disc"]
     cwd = {"flag": os.path.join(root, "elsewhere"), "cwd": root, "parent": os.path.join(root, "a"), "grandparent": os.path.join(root, "a", "b"),
            "flag_over_cwd": os.path.join(root, "elsewhere"), "flag_over_parent": os.path.join(root, "elsewhere", "sub"),
